@@ -40,6 +40,7 @@ func main() {
 	out := fs.String("out", "", "output file")
 	n := fs.Int("n", 100, "amount of work")
 	fam := fs.String("fam", "", "family / driver name")
+	sub := fs.Int("sub", 0, "sub-run number (varies the random stream)")
 	fs.Parse(os.Args[2:])
 	setAlphabet(seedFromEnv())
 	fnd, err := loadFindings(*findings)
@@ -59,7 +60,7 @@ func main() {
 		os.Exit(replayOne(fs.Args(), fnd))
 	default:
 		if fn, ok := commands[cmd]; ok {
-			os.Exit(fn(&cmdArgs{report: *report, replays: *replays, fnd: fnd, workers: *workers, out: *out, n: *n, fam: *fam, rest: fs.Args()}))
+			os.Exit(fn(&cmdArgs{report: *report, replays: *replays, fnd: fnd, workers: *workers, out: *out, n: *n, fam: *fam, sub: *sub, rest: fs.Args()}))
 		}
 		fmt.Fprintln(os.Stderr, "unknown command", cmd)
 		os.Exit(2)
@@ -69,7 +70,7 @@ func main() {
 type cmdArgs struct {
 	report, replays, out, fam string
 	fnd                       *Findings
-	workers, n                int
+	workers, n, sub           int
 	rest                      []string
 }
 
@@ -114,7 +115,11 @@ func replayOne(paths []string, fnd *Findings) int {
 			if env == nil {
 				env = &Env{}
 			}
-			fails, _, _ := bt.judgeExec(rc.Fam, env, rc.Ctx, rc.E, rc.R, baseStyles)
+			styles := baseStyles
+			if rc.Text != "" {
+				styles = append([]Style{{Literal: rc.Text}}, baseStyles...)
+			}
+			fails, _, _ := bt.judgeExec(rc.Fam, env, rc.Ctx, rc.E, rc.R, styles)
 			for _, f := range fails {
 				fmt.Printf("REPRODUCED %s: %s :: %s\n", f.Aspect, f.Text, f.Detail)
 				status = 1
